@@ -29,7 +29,11 @@ Inductive tv :=
 | TDefault                                   (* the _DEFAULT_ON_SETATTR object *)
 | TBad.                                      (* anything the primitives give no meaning to *)
 
-Record ctx := { cx_k : cls_spec; cx_von : bool }.
+(** [cx_callable_truthy]: the truth value of the user's callable objects (hooks, validators,
+    converters).  A callable object may define [__bool__] / [__len__] and be falsy, so the tie
+    lemmas quantify over it: code that decides "is there a hook / validator / converter" by
+    truthiness instead of [is not None] cannot be proved equal to the model. *)
+Record ctx := { cx_k : cls_spec; cx_von : bool; cx_callable_truthy : bool }.
 
 Definition to_val (x : tv) : val :=
   match x with
@@ -54,17 +58,20 @@ Definition tv_is (x y : tv) : bool :=
   | _ => false
   end.
 
-(** Truthiness: None and False are falsy; every other object here (callables, tokens,
-    NO_OP, Attribute objects) is truthy. *)
-Definition tv_truthy (x : tv) : bool :=
+(** Truthiness: None and False are falsy; NO_OP (a bare [object()]), the default pipe (a
+    function), Attribute objects and tokens are truthy; a user callable is what the context says. *)
+Definition tv_truthy (cx : ctx) (x : tv) : bool :=
   match x with
   | TBool b => b
   | TBad => false
+  | TValidator (Some _) | THook _ | TChain _ | TOn (OVHooks _) => cx_callable_truthy cx
+  | TConverter _ CNone => false
+  | TConverter _ _ => cx_callable_truthy cx
   | _ => negb (tv_is_none x)
   end.
 
 (** [x or y] *)
-Definition tv_or (x y : tv) : tv := if tv_truthy x then x else y.
+Definition tv_or (cx : ctx) (x y : tv) : tv := if tv_truthy cx x then x else y.
 
 Definition tv_isinstance_converter (x : tv) : bool :=
   match x with TConverter _ (CConverter _ _ _ _) => true | _ => false end.
